@@ -41,6 +41,11 @@ pub enum TapAction {
     Flip,
     /// xor this pattern into the bytes (cycled)
     XorBytes(Vec<u8>),
+    /// byte-level mutation of a resizable buffer (plaintext of a garbled row)
+    Bytes(crate::wire::ByteMut),
+    /// plaintext of a garbled row `(bool, Vec<Mac>, Label)`: keep / pad to exactly k MACs with a
+    /// consistent length prefix
+    RowMacs(usize),
 }
 
 #[derive(Clone, Debug, PartialEq, Eq, Hash, Serialize, Deserialize)]
@@ -72,7 +77,7 @@ impl AttackCase {
 }
 
 fn site_static(s: &str) -> Option<&'static str> {
-    const SITES: [&str; 9] = ["rng_multi_seed", "rng_pair_seed", "fashare_dm", "dvalue_share", "beaver_d", "beaver_e", "garble_row", "own_input", "ot_choice"];
+    const SITES: [&str; 10] = ["rng_multi_seed", "rng_pair_seed", "fashare_dm", "dvalue_share", "beaver_d", "beaver_e", "garble_row", "own_input", "ot_choice", "garble_plain"];
     SITES.iter().copied().find(|x| *x == s)
 }
 
@@ -147,6 +152,36 @@ pub fn build_adversary(case: &AttackCase) -> Adversary {
                                     *b = !*b
                                 }
                             }
+                            (TapAction::Flip, TapRef::Vec(b)) => {
+                                if !b.is_empty() {
+                                    b[0] ^= 1
+                                }
+                            }
+                            (TapAction::XorBytes(p), TapRef::Vec(b)) => {
+                                if !p.is_empty() {
+                                    for (i, x) in b.iter_mut().enumerate() {
+                                        *x ^= p[i % p.len()]
+                                    }
+                                }
+                            }
+                            (TapAction::Bytes(m), TapRef::Vec(b)) => *b = crate::wire::apply_bytes(b, m),
+                            (TapAction::RowMacs(k), TapRef::Vec(b)) => {
+                                // bincode legacy: 1 byte bool, u64 LE count, 16 bytes per MAC, 16 bytes label
+                                if b.len() >= 9 + 16 {
+                                    let cnt = u64::from_le_bytes(b[1..9].try_into().unwrap()) as usize;
+                                    if b.len() == 9 + 16 * cnt + 16 {
+                                        let label = b[9 + 16 * cnt..].to_vec();
+                                        let mut macs = b[9..9 + 16 * cnt].to_vec();
+                                        macs.resize(16 * *k, 0);
+                                        let mut nb = vec![b[0]];
+                                        nb.extend_from_slice(&(*k as u64).to_le_bytes());
+                                        nb.extend_from_slice(&macs);
+                                        nb.extend_from_slice(&label);
+                                        *b = nb;
+                                    }
+                                }
+                            }
+                            (TapAction::Bytes(_) | TapAction::RowMacs(_), _) => {}
                         }
                     }
                 });
